@@ -6,6 +6,7 @@ BOUNDS = {"quick": dict(depth=2, random=30000, all_ops=False), "thorough": dict(
 def run(res):
     b = BOUNDS[res.tier]
     t_ok, t_log = rs2v("check_excess_parentheses")
+    if t_ok: t_ok, t_log = rs2v("double_minus_guard")     # the guard that puts parentheses back (parenthesise_double_minus)
     proof = proof_stage(res, "C05", extra_obligations=2) if t_ok else dict(ok=False, discharged=0, theorems=[], log=t_log, broken_at="rs2v: " + t_log.strip()[-300:])
     if not t_ok:
         res.coverage.update(obligations=2, discharged=0, checker_cmd="rs2v /repo coq/gen", trusted_base=list(TRUSTED_BASE))
